@@ -519,6 +519,17 @@ theorem hasGlue_allws : ∀ (d : List Char) (b : Bool), d.all isWhitespace = tru
     simp only [hasGlueFrom, hc, if_false]
     exact ih _ h.2
 
+theorem ltAmp_allws : ∀ (d : List Char), d.all isWhitespace = true → bytesContain ['<', '&'] d = false := by
+  intro d
+  induction d with
+  | nil => intro _; rfl
+  | cons c r ih =>
+    intro h
+    simp only [List.all_cons, Bool.and_eq_true] at h
+    have hc : c ≠ '<' := by intro e; subst e; exact absurd h.1 (by decide)
+    simp only [bytesContain, List.isPrefixOf, Bool.or_eq_false_iff, Bool.and_eq_false_iff, beq_eq_false_iff_ne]
+    exact ⟨Or.inl (Ne.symm hc), ih h.2⟩
+
 theorem collapsed_allws (d : List Char) (h : isAllWhitespace d = true) :
     textItems (collapsed d) = [] ∨ textItems (collapsed d) = [.ws] := by
   cases d with
@@ -526,8 +537,9 @@ theorem collapsed_allws (d : List Char) (h : isAllWhitespace d = true) :
   | cons c sx =>
     right
     have hg : hasReferenceGlue (c :: sx) = false := hasGlue_allws _ false h
+    have hl : bytesContain ['<', '&'] (c :: sx) = false := ltAmp_allws _ h
     simp only [isAllWhitespace, List.all_cons, Bool.and_eq_true] at h
-    simp only [collapsed, textCollapsed, hg, Bool.false_eq_true, if_false, replaceWsEntities, replWsEnt, h.1, if_true]
+    simp only [collapsed, textCollapsed, hg, hl, Bool.or_self, Bool.false_eq_true, if_false, replaceWsEntities, replWsEnt, h.1, if_true]
     rw [replWsEnt_allws _ _ sx h.2]
     split <;> rfl
 
